@@ -1390,7 +1390,9 @@ def error_wrapping(repo, run, rule):
             bad.append('the wrapped call does not run inside exactly one rethrow_point')
             continue
         n += 1
-        a = ent[0].value.ast.args
+        a = _flat_call_args(repo, impl, ent[0].value.ast, ['error_type', 'self', 'path', 'other'])
+        if a is None:
+            raise AnalysisError('node.decorator_factory: arguments of %s not recognised' % norm(ent[0].value.ast)[:80])
         if len(a) != 4 or norm(a[0]) != 'error_type' or norm(a[1]) != 'args[0]':
             bad.append('rethrow_point is not given (error_type, self, ...): %s' % norm(ent[0].value.ast)[:80])
             continue
@@ -2022,6 +2024,32 @@ def dump_table(repo, run, rule):
         run.violation(rule, fi, 'dump entry table', bad[0] + (' [%d rows]' % len(bad) if len(bad) > 1 else ''), witness=bad[:4])
     else:
         run.ok(rule, fi, 'dump entry (%d rows)' % rows, 'tree / stream / options reach PyYAML; dumper: own class, empty flag stack, caller\'s exclusions; text only without output; own file closed')
+
+
+def _flat_call_args(repo, fi, call, names):
+    """the arguments of a call as a positional list: keywords placed by the parameter names given, `*(a, b)` and `*Record(a, b)` (a
+    private NamedTuple of the module, built in place) spliced in; None when something else is starred / unknown keywords are used"""
+    out = []
+    for a in call.args:
+        if isinstance(a, ast.Starred):
+            v = a.value
+            if isinstance(v, (ast.Tuple, ast.List)):
+                out.extend(v.elts)
+                continue
+            if isinstance(v, ast.Call) and isinstance(v.func, ast.Name) and not v.keywords and not any(isinstance(x, ast.Starred) for x in v.args):
+                ci = repo.classes.get(v.func.id)
+                if ci is not None and any(b.split('.')[-1] == 'NamedTuple' for b in ci.base_exprs):
+                    out.extend(v.args)
+                    continue
+            return None
+        out.append(a)
+    for k in call.keywords:
+        if k.arg is None or k.arg not in names or names.index(k.arg) != len(out):
+            if k.arg in names and names.index(k.arg) > len(out):
+                return None
+            return None
+        out.append(k.value)
+    return out
 
 
 def propagate_implicit_table(repo, run, rule, flags=('delete', 'allow_new')):
